@@ -195,12 +195,12 @@ class Availability(Harness):
 
     BANNERS = {'openssh': 'OpenSSH_', 'dropbear': 'dropbear_', 'libssh': 'libssh_'}
 
-    def __init__(self, product, sa, sb, via_banner=False):
-        self.product, self.sa, self.sb, self.via_banner = product, tuple(sa), tuple(sb), via_banner
-        self.name = 'availability-%s-%s-vs-%s%s' % (product, 'x'.join(map(str, sa)), 'x'.join(map(str, sb)), '-banner' if via_banner else '')
+    def __init__(self, product, sa, sb, via_banner=False, prior=None):
+        self.product, self.sa, self.sb, self.via_banner, self.prior = product, tuple(sa), tuple(sb), via_banner, prior
+        self.name = 'availability-%s-%s-vs-%s%s%s' % (product, 'x'.join(map(str, sa)), 'x'.join(map(str, sb)), '-banner' if via_banner else '', ('-after-' + prior) if prior else '')
 
     def params(self):
-        return {'product': self.product, 'sa': list(self.sa), 'sb': list(self.sb), 'via_banner': self.via_banner}
+        return {'product': self.product, 'sa': list(self.sa), 'sb': list(self.sb), 'via_banner': self.via_banner, 'prior': self.prior}
 
     def inputs(self):
         return {'a': sym_version('a', self.sa), 'b': sym_version('b', self.sb)}
@@ -227,6 +227,10 @@ class Availability(Harness):
                 return {'exc': Exc('NotIdentified', 'software not identified from the banner')}
         else:
             sw = M.software.Software(None, PRODUCTS[self.product], inp['a'], None, None)
+        if self.prior:
+            # another server of the same product was assessed just before, in the same process, on the same table (very old or very new: the opposite
+            # availability verdict must not stick to the row)
+            guarded(algs.get_recommendations, M.software.Software(None, PRODUCTS[self.product], self.prior, None, None), True)
         r = guarded(algs.get_recommendations, sw, True)
         if isinstance(r, Exc):
             return {'exc': r}
@@ -326,11 +330,13 @@ def tasks(tier):
         T.append(Availability('openssh', (1, 1), (2, 1), True))
         T.append(Availability('libssh', (1, 2, 1), (1, 1, 1), True))
         T.append(Availability('dropbear', (4, 2), (4, 2), True))
+        T.append(Availability('openssh', (1, 1), (1, 1), False, '0.1'))
+        T.append(Availability('openssh', (1, 1), (1, 1), False, '999.9'))
+        T.append(Availability('libssh', (1, 2, 1), (1, 1, 1), False, '0.0.1'))
     else:
         for p in prods:
             for a in [(1, 1), (2, 1), (1, 2), (2, 2), (1, 2, 1), (4, 2)]:
                 T.append(Availability(p, a, (1, 1) if len(a) == 2 else (1, 1, 1), True))
-    T.append(comparator_sites)
     return T
 
 
@@ -341,7 +347,7 @@ def harness_by_name(name, params):
     if k == 'trans':
         return Transitive(params['product'], params['sa'], params['sb'], params['sc'])
     if k == 'availability':
-        return Availability(params['product'], params['sa'], params['sb'], params.get('via_banner', False))
+        return Availability(params['product'], params['sa'], params['sb'], params.get('via_banner', False), params.get('prior'))
     if k == 'timeframe':
         return TimeframeMinMax(params['prefix'], params['sa'], params['sb'], params['order'])
     raise KeyError(name)
